@@ -1514,6 +1514,7 @@ pub fn oracle_c12(ctx: &Ctx, out: &mut Out, s: &Subject, rng: &mut Rng) {
                         let classifier = match (&a, name) {
                             (x, _) if (x.is_ok() || is_budget_panic(x)) && plain_history_differs(choice, db, &hist, &fresh[o]) => history_classifier(name, s, &a, &fresh[o]).to_string(),
                             (Err(m), "slg") if m.contains("Negative subgoal had delayed_subgoals") => "slg_negative_subgoal_delayed_panic".to_string(),
+                            (Err(m), "slg") if m.contains("verif-work-budget-exceeded") => "slg_runaway_after_panic".to_string(),
                             (Err(_), "slg") => "slg_panic_after_panic".to_string(),
                             (_, "slg") => "slg_strand_lost_after_panic".to_string(),
                             (Err(m), _) if m.contains("stack.is_empty()") => "recursive_stack_not_reset_after_panic".to_string(),
